@@ -130,25 +130,48 @@ def synth_uniquac(rng):
     )
 
 
-def synth_mixture(rng, zero_nrtl=False, extreme_masses=False):
-    c1 = synth_component(rng, "S1")
-    c2 = synth_component(rng, "S2")
+def synth_mixture(rng, zero_nrtl=False, extreme_masses=False, only=None):
+    """`only`: 'NRTL' / 'UNIQUAC' builds a user-defined mixture that carries the data of that model alone (the optional
+    fields of the other model - UNIQUAC constants of the components, the other parameter set - are left out)"""
+    c1 = synth_component(rng, "S1", uniquac=only != "NRTL")
+    c2 = synth_component(rng, "S2", uniquac=only != "NRTL")
     if extreme_masses:
         c1.molecular_weight = loguniform(rng, 2, 2000)
         c2.molecular_weight = loguniform(rng, 2, 2000)
+    nrtl, uq = synth_nrtl(rng, zero=zero_nrtl), synth_uniquac(rng)
     return Mixture(
         name="synthetic",
         first_component=c1,
         second_component=c2,
-        nrtl_params=synth_nrtl(rng, zero=zero_nrtl),
-        uniquac_params=synth_uniquac(rng),
+        nrtl_params=None if only == "UNIQUAC" else nrtl,
+        uniquac_params=None if only == "NRTL" else uq,
     )
 
 
-def gen_mixture(rng, p_synth=0.4):
-    """-> (mixture, description)"""
+def only_model(mixture):
+    """the one activity model a mixture carries data for, or None when it carries both"""
+    if mixture.uniquac_params is None or mixture.first_component.uniquac_constants is None or mixture.second_component.uniquac_constants is None:
+        return "NRTL"
+    if mixture.nrtl_params is None:
+        return "UNIQUAC"
+    return None
+
+
+def pick_model(rng, mixture, models=("NRTL", "UNIQUAC")):
+    m = rng.choice(list(models))
+    o = only_model(mixture)
+    return o if (o is not None and o in models) else m
+
+
+def gen_mixture(rng, p_synth=0.4, minimal=0.0):
+    """-> (mixture, description); `minimal`: share of the synthetic mixtures that carry one model's data only"""
     if rng.random() < p_synth:
-        m = synth_mixture(rng)
+        only = None
+        if minimal and rng.random() < minimal:
+            # NRTL-only: a DiffusionCurve of the pinned library always evaluates NRTL partial pressures (it has no model
+            # field), so a UNIQUAC-only mixture cannot carry curves at all; those are used in C04 (thermodynamics) only
+            only = "NRTL"
+        m = synth_mixture(rng, only=only)
         return m, describe_mixture(m)
     name = rng.choice(BUILTIN_MIXTURES)
     return getattr(Mixtures, name), name
@@ -476,8 +499,8 @@ class FluxCase:
     """one call of the flux solver: everything needed to make it, plus a json-able description"""
 
     def __init__(self, rng, modes=None, models=("NRTL", "UNIQUAC"), p_membrane=0.15, p_synth=0.4, edge=0.001):
-        self.mix, self.mdesc = gen_mixture(rng, p_synth)
-        self.model = rng.choice(list(models))
+        self.mix, self.mdesc = gen_mixture(rng, p_synth, minimal=0.2 if len(models) == 2 else 0.0)
+        self.model = pick_model(rng, self.mix, models)
         if rng.random() < 0.4:
             self.model = fresh_str(self.model)  # an equal string from elsewhere (config file, CLI), not the literal
         self.membrane = gen_membrane(rng, self.mix)
